@@ -70,17 +70,18 @@ Proof. unfold core; intros H; injection H; intros; repeat split; assumption. Qed
 (* What the "no connect report once disconnected" argument reads in addition. *)
 Record deep_t : Type := mkDeep {
   d_handlers : list hkind; d_ids : list idk; d_oh : openh; d_ps : pstate;
-  d_secured : bool; d_tlsp : bool; d_tlsf : bool; d_tlss : bool; d_mand : bool; d_dis : bool
+  d_secured : bool; d_tlsp : bool; d_tlsf : bool; d_tlss : bool; d_mand : bool; d_dis : bool; d_rp : bool
 }.
 Definition deep (s : state) : deep_t :=
   mkDeep (map fst (handlers s)) (map fst (idhandlers s)) (oh s) (ps s)
-         (secured s) (tls_present s) (tls_failed s) (tls_support s) (f_tls_mandatory s) (f_tls_disabled s).
+         (secured s) (tls_present s) (tls_failed s) (tls_support s) (f_tls_mandatory s) (f_tls_disabled s)
+         (reset_parser s).
 
 Lemma deep_fields s s' : deep s' = deep s ->
   map fst (handlers s') = map fst (handlers s) /\ map fst (idhandlers s') = map fst (idhandlers s) /\
   oh s' = oh s /\ ps s' = ps s /\ secured s' = secured s /\ tls_present s' = tls_present s /\
   tls_failed s' = tls_failed s /\ tls_support s' = tls_support s /\
-  f_tls_mandatory s' = f_tls_mandatory s /\ f_tls_disabled s' = f_tls_disabled s.
+  f_tls_mandatory s' = f_tls_mandatory s /\ f_tls_disabled s' = f_tls_disabled s /\ reset_parser s' = reset_parser s.
 Proof. unfold deep; intros H; injection H; intros; repeat split; assumption. Qed.
 
 (* ------------------------------------------------------------------ plumbing: core and deep frames *)
@@ -178,3 +179,707 @@ Global Hint Rewrite q_append_core send_gated_core send_raw_m_core timed_add_core
 Global Hint Rewrite q_append_deep send_gated_deep send_raw_m_deep timed_add_deep timed_del_deep
   timed_reset_all_deep timed_set_stamp_deep sm_queue_cleanup_deep sm_queue_resend_deep
   xmpp_disconnect_deep conn_open_stream_deep reset_sm_deep sm_handle_deep : ndeep.
+
+(* ------------------------------------------------------------------ output counters *)
+Definition is_conn (o : out) : bool := match o with OConnect => true | _ => false end.
+Definition is_dsc (o : out) : bool := match o with ODisconnect _ _ => true | _ => false end.
+Definition is_rawc (o : out) : bool := match o with ORawConnect => true | _ => false end.
+Definition is_crash (o : out) : bool := match o with OCrash => true | _ => false end.
+(* an output that the lifecycle observer ignores *)
+Definition neutral (o : out) : bool := negb (is_conn o || is_dsc o || is_rawc o || is_crash o).
+
+Fixpoint cnt (p : out -> bool) (l : emit) : nat :=
+  match l with [] => O | x :: r => ((if p x then 1 else 0) + cnt p r)%nat end.
+Lemma cnt_app p a b : cnt p (a ++ b) = (cnt p a + cnt p b)%nat.
+Proof. induction a as [|x a IH]; cbn [app cnt]; [reflexivity|]. rewrite IH. lia. Qed.
+Lemma cnt_zero_existsb p l : cnt p l = O <-> existsb p l = false.
+Proof. induction l as [|x l IH]; cbn [cnt existsb]; [tauto|]. destruct (p x); cbn [orb]; [split; [lia|discriminate]|]. rewrite <- IH. lia. Qed.
+Lemma cnt_neutral p l : forallb neutral l = true -> (forall o, p o = true -> neutral o = false) -> cnt p l = O.
+Proof.
+  intros H Hp. induction l as [|x l IH]; [reflexivity|]. cbn [forallb] in H. apply andb_true_iff in H. destruct H as [H1 H2].
+  cbn [cnt]. destruct (p x) eqn:E; [apply Hp in E; congruence|]. rewrite IH by assumption. reflexivity.
+Qed.
+Lemma existsb_neutral p l : forallb neutral l = true -> (forall o, p o = true -> neutral o = false) -> existsb p l = false.
+Proof. intros. apply cnt_zero_existsb. now apply cnt_neutral. Qed.
+
+Definition scan_end (b : bool) (l : emit) : bool := b || existsb is_dsc l.
+Lemma scan_app b a : forall c, scan_no_connect_after b (a ++ c) = scan_no_connect_after b a && scan_no_connect_after (scan_end b a) c.
+Proof.
+  revert b. induction a as [|x a IH]; intros b c; cbn [app].
+  - unfold scan_end. cbn [existsb scan_no_connect_after]. rewrite orb_false_r. reflexivity.
+  - unfold scan_end in *. destruct x; cbn [scan_no_connect_after existsb is_dsc]; rewrite ?IH, ?orb_false_l; try reflexivity.
+    + rewrite andb_assoc. reflexivity.
+    + rewrite andb_assoc. reflexivity.
+    + rewrite orb_true_r. cbn [orb]. reflexivity.
+Qed.
+Lemma scan_neutral b l : forallb neutral l = true -> scan_no_connect_after b l = true.
+Proof.
+  induction l as [|x l IH]; intros H; [reflexivity|]. cbn [forallb] in H. apply andb_true_iff in H. destruct H as [H1 H2].
+  destruct x; cbn [scan_no_connect_after]; try (now apply IH); discriminate.
+Qed.
+Lemma scan_end_neutral b l : forallb neutral l = true -> scan_end b l = b.
+Proof.
+  intros H. unfold scan_end. rewrite (existsb_neutral is_dsc l H); [apply orb_false_r|].
+  intros o Ho. destruct o; try discriminate; reflexivity.
+Qed.
+
+(* the ghost observer of a step *)
+Lemma fold_note_out_fields (o : emit) : forall g,
+  let g' := fold_left note_out o g in
+  g_connects g' = (g_connects g + cnt is_conn o)%nat /\
+  g_disconnects g' = (g_disconnects g + cnt is_dsc o)%nat /\
+  g_rawc g' = (g_rawc g || existsb is_rawc o) /\
+  g_attempt g' = g_attempt g /\ g_serr g' = g_serr g /\ g_se_bad g' = g_se_bad g /\
+  g_conn_unjust g' = g_conn_unjust g.
+Proof.
+  induction o as [|x o IH]; intros g; cbn [fold_left cnt existsb].
+  - rewrite !Nat.add_0_r, orb_false_r. repeat split; reflexivity.
+  - specialize (IH (note_out g x)). cbn zeta in IH. destruct IH as (I1 & I2 & I3 & I4 & I5 & I6 & I7).
+    cbn zeta. rewrite I1, I2, I3, I4, I5, I6, I7. clear.
+    destruct x as [ | | | | [|] | | | | | | | | | ]; cbn [note_out is_conn is_dsc is_rawc]; sproj;
+      rewrite ?orb_false_l, ?orb_true_r, ?orb_true_l; repeat split; try reflexivity; try lia.
+Qed.
+
+(* ------------------------------------------------------------------ generic induction over operation sequences *)
+Section CheckRun.
+  Variable Inv : state -> Prop.
+  Variable ok : state -> op -> state -> list out -> bool.
+  Hypothesis Hstep : forall s o, Inv s -> Inv (fst (step s o)).
+  Hypothesis Hok : forall s o, Inv s -> ok s o (fst (step s o)) (snd (step s o)) = true.
+  Lemma check_run_inv : forall ops s, Inv s -> check_run ok s ops = true.
+  Proof.
+    induction ops as [|o r IH]; intros s H; cbn [check_run]; [reflexivity|].
+    pose proof (Hstep s o H) as H1. pose proof (Hok s o H) as H2.
+    destruct (step s o) as [s' outs]. cbn [fst snd] in *. rewrite H2. cbn [andb]. now apply IH.
+  Qed.
+End CheckRun.
+
+Lemma run_inv (Inv : state -> Prop) :
+  (forall s o, Inv s -> Inv (fst (step s o))) ->
+  forall ops s, Inv s -> Inv (fst (run s ops)).
+Proof.
+  intros Hstep. induction ops as [|o r IH]; intros s H; cbn [run]; [exact H|].
+  pose proof (Hstep s o H) as H1. destruct (step s o) as [s1 o1]. cbn [fst] in H1.
+  specialize (IH s1 H1). destruct (run s1 r) as [s2 o2]. exact IH.
+Qed.
+
+(* ------------------------------------------------------------------ the lifecycle / crash invariant *)
+(* Stated on the core view and the outputs already produced in the current step ("acc"): the ghost
+   counters are updated from the outputs only when the step is over, so while a step runs the
+   observer's count is  (counter in the ghost) + (occurrences in acc). *)
+Definition vC (c : core_t) (acc : emit) : nat := (c_nc c + cnt is_conn acc)%nat.
+Definition vD (c : core_t) (acc : emit) : nat := (c_ndisc c + cnt is_dsc acc)%nat.
+Definition vR (c : core_t) (acc : emit) : bool := c_rawc c || existsb is_rawc acc.
+Definition vB (c : core_t) : bool := Nat.ltb 0 (c_ndisc c) && c_att c.
+Record LifeI (c : core_t) (acc : emit) : Prop := mkLife {
+  L1 : c_st c <> Disconnected -> c_att c = true /\ vD c acc = O;
+  L2 : c_st c = Disconnected -> c_att c = true -> vD c acc = 1%nat;
+  L3 : c_st c = Disconnected -> c_nd c = false;
+  L4 : c_nd c = true -> c_st c = Connected /\ ((0 < vC c acc)%nat \/ vR c acc = true);
+  L5 : c_st c <> Disconnected -> c_nd c = false -> vC c acc = O /\ vR c acc = false;
+  L6 : c_raw c = true \/ (vC c acc <= 1)%nat;
+  L7 : scan_no_connect_after (vB c) acc = true;
+  L8 : c_att c = false -> vD c acc = O;
+  K1 : c_crashed c = false /\ existsb is_crash acc = false;
+  K2 : c_st c <> Disconnected -> c_alloc c = true
+}.
+Definition Life (s : state) (acc : emit) : Prop := LifeI (core s) acc.
+
+Lemma Life_core s s' acc : core s' = core s -> Life s acc -> Life s' acc.
+Proof. unfold Life. intros ->. exact (fun x => x). Qed.
+
+Lemma neutral_facts l : forallb neutral l = true ->
+  cnt is_conn l = O /\ cnt is_dsc l = O /\ existsb is_rawc l = false /\ existsb is_crash l = false.
+Proof.
+  intros H. repeat split; [apply cnt_neutral | apply cnt_neutral | apply existsb_neutral | apply existsb_neutral];
+    try assumption; intros o Ho; destruct o; try discriminate; reflexivity.
+Qed.
+
+Ltac core_simpl := cbn [c_st c_nd c_raw c_alloc c_crashed c_se c_att c_nc c_ndisc c_rawc c_serr c_sebad] in *.
+(* discharge / drop implications whose premise is a decided (dis)equality of connection states *)
+Ltac st_clean :=
+  repeat match goal with
+  | H : ?a <> ?b -> _ |- _ =>
+      first [ let H' := fresh in assert (H' : a <> b) by discriminate; specialize (H H'); clear H'
+            | constr_eq a b; clear H ]
+  | H : ?a = ?b -> _ |- _ =>
+      is_constructor_app a; is_constructor_app b;
+      first [ constr_eq a b; specialize (H eq_refl) | clear H ]
+  end
+with is_constructor_app a := lazymatch a with Disconnected => idtac | Connecting => idtac | Connected => idtac end.
+Ltac st_goal :=
+  repeat match goal with
+  | |- _ /\ _ => split
+  | |- ?a <> ?b -> _ => let H := fresh in intros H; try (exfalso; apply H; reflexivity)
+  | |- ?a = ?b -> _ => let H := fresh in intros H; try discriminate H
+  end.
+
+(* neutral outputs *)
+Lemma LifeI_neutral c acc l : forallb neutral l = true -> LifeI c acc -> LifeI c (acc ++ l).
+Proof.
+  intros Hn H. destruct (neutral_facts l Hn) as (N1 & N2 & N3 & N4).
+  destruct H. constructor; unfold vC, vD, vR in *;
+    rewrite ?cnt_app, ?existsb_app, ?N1, ?N2, ?N3, ?N4, ?Nat.add_0_r, ?orb_false_r; try assumption.
+  rewrite scan_app, (scan_neutral _ l Hn), andb_true_r. assumption.
+Qed.
+
+Lemma scan_end_zero c acc : c_ndisc c = O -> cnt is_dsc acc = O -> scan_end (vB c) acc = false.
+Proof.
+  intros H1 H2. unfold scan_end, vB. rewrite H1. cbn [Nat.ltb Nat.leb andb orb]. now apply cnt_zero_existsb.
+Qed.
+
+(* "connected" reported by stream_negotiation_success *)
+Lemma LifeI_connect c acc :
+  c_st c = Connected -> (c_raw c = true \/ c_nd c = false) -> LifeI c acc ->
+  LifeI (mkCore (c_st c) true (c_raw c) (c_alloc c) (c_crashed c) (c_se c) (c_att c) (c_nc c) (c_ndisc c) (c_rawc c) (c_serr c) (c_sebad c))
+        (acc ++ [OConnect]).
+Proof.
+  intros Hst Hr H. destruct H as [L1 L2 L3 L4 L5 L6 L7 L8 K1 K2].
+  unfold vC, vD, vR, vB in *. rewrite Hst in *. st_clean. destruct L1 as [La Ld].
+  assert (Hse : scan_end (vB c) acc = false) by (apply scan_end_zero; clear - Ld; lia).
+  unfold vB in Hse.
+  constructor; unfold vC, vD, vR, vB; core_simpl; rewrite ?Hst;
+    rewrite ?cnt_app, ?existsb_app, ?scan_app; cbn [cnt existsb is_conn is_dsc is_rawc is_crash scan_no_connect_after];
+    rewrite ?Nat.add_0_r, ?orb_false_r, ?orb_true_r; st_goal; try assumption; try reflexivity.
+  - left. clear. lia.
+  - destruct Hr as [Hr|Hr]; [left; exact Hr|]. right. destruct (L5 Hr) as [E _]. clear - E. lia.
+  - rewrite Hse, L7. reflexivity.
+  - apply K1.
+  - apply K1.
+Qed.
+
+(* the disconnect notification; everything before it in [l] is neutral *)
+Lemma LifeI_disconnect c acc l e se cr sb :
+  c_st c <> Disconnected -> forallb neutral l = true -> LifeI c acc ->
+  LifeI (mkCore Disconnected false (c_raw c) (c_alloc c) (c_crashed c) cr (c_att c) (c_nc c) (c_ndisc c) (c_rawc c) (c_serr c) sb)
+        (acc ++ l ++ [ODisconnect e se]).
+Proof.
+  intros Hst Hn H. apply (LifeI_neutral _ _ l Hn) in H. rewrite app_assoc. revert H. generalize (acc ++ l). clear acc l Hn. intros acc H.
+  destruct H as [L1 L2 L3 L4 L5 L6 L7 L8 K1 K2].
+  unfold vC, vD, vR, vB in *. destruct (L1 Hst) as [La Ld].
+  constructor; unfold vC, vD, vR, vB; core_simpl; rewrite ?Hst;
+    rewrite ?cnt_app, ?existsb_app, ?scan_app; cbn [cnt existsb is_conn is_dsc is_rawc is_crash scan_no_connect_after];
+    rewrite ?Nat.add_0_r, ?orb_false_r, ?orb_true_r; st_goal; try assumption; try reflexivity.
+  - clear - Ld. lia.
+  - rewrite L7. reflexivity.
+  - congruence.
+  - apply K1.
+  - apply K1.
+Qed.
+
+(* ORawConnect from conn_established (state just became Connected) *)
+Lemma LifeI_rawconnect c acc :
+  c_st c = Connecting -> LifeI c acc ->
+  LifeI (mkCore Connected true (c_raw c) (c_alloc c) (c_crashed c) (c_se c) (c_att c) (c_nc c) (c_ndisc c) (c_rawc c) (c_serr c) (c_sebad c))
+        (acc ++ [ORawConnect]).
+Proof.
+  intros Hst H. destruct H as [L1 L2 L3 L4 L5 L6 L7 L8 K1 K2].
+  unfold vC, vD, vR, vB in *. rewrite Hst in *. st_clean. destruct L1 as [La Ld].
+  assert (Hse : scan_end (vB c) acc = false) by (apply scan_end_zero; clear - Ld; lia).
+  unfold vB in Hse.
+  constructor; unfold vC, vD, vR, vB; core_simpl; rewrite ?Hst;
+    rewrite ?cnt_app, ?existsb_app, ?scan_app; cbn [cnt existsb is_conn is_dsc is_rawc is_crash scan_no_connect_after];
+    rewrite ?Nat.add_0_r, ?orb_false_r, ?orb_true_r; st_goal; try assumption; try reflexivity.
+  - right. reflexivity.
+  - rewrite Hse, L7. reflexivity.
+  - apply K1.
+  - apply K1.
+Qed.
+
+(* Connecting -> Connected without a report *)
+Lemma LifeI_established c acc :
+  c_st c = Connecting -> LifeI c acc ->
+  LifeI (mkCore Connected (c_nd c) (c_raw c) (c_alloc c) (c_crashed c) (c_se c) (c_att c) (c_nc c) (c_ndisc c) (c_rawc c) (c_serr c) (c_sebad c)) acc.
+Proof.
+  intros Hst H. destruct H as [L1 L2 L3 L4 L5 L6 L7 L8 K1 K2].
+  unfold vC, vD, vR, vB in *. rewrite Hst in *. st_clean.
+  constructor; unfold vC, vD, vR, vB; core_simpl; rewrite ?Hst;
+    rewrite ?cnt_app, ?existsb_app, ?scan_app; cbn [cnt existsb is_conn is_dsc is_rawc is_crash scan_no_connect_after];
+    rewrite ?Nat.add_0_r, ?orb_false_r, ?orb_true_r; st_goal; try assumption; try reflexivity.
+  all: try (apply L1); try (apply K1).
+  - destruct (L4 H) as [E _]; discriminate E.
+  - apply L5; assumption.
+  - apply L5; assumption.
+Qed.
+
+(* fields of the core that the lifecycle invariant does not read *)
+Lemma LifeI_irrelevant c acc se serr sb :
+  LifeI c acc ->
+  LifeI (mkCore (c_st c) (c_nd c) (c_raw c) (c_alloc c) (c_crashed c) se (c_att c) (c_nc c) (c_ndisc c) (c_rawc c) serr sb) acc.
+Proof. intros H. destruct H. constructor; assumption. Qed.
+
+(* ------------------------------------------------------------------ handler lists seen through the deep view *)
+Lemma mech_eqb_eq a b : mech_eqb a b = true <-> a = b.
+Proof. destruct a, b; cbn; try (split; [discriminate|congruence]); try tauto. rewrite Nat.eqb_eq. split; congruence. Qed.
+Lemma hkind_eqb_eq a b : hkind_eqb a b = true <-> a = b.
+Proof.
+  destruct a, b; cbn [hkind_eqb]; try (split; [discriminate|congruence]); try tauto.
+  - rewrite mech_eqb_eq. split; congruence.
+  - rewrite andb_true_iff, !Nat.eqb_eq. split; [intros [-> ->]; reflexivity | intros H; injection H; auto].
+Qed.
+Lemma hkind_eqb_refl a : hkind_eqb a a = true.
+Proof. now apply hkind_eqb_eq. Qed.
+Lemma idk_eqb_eq a b : idk_eqb a b = true <-> a = b.
+Proof. destruct a, b; cbn; split; congruence. Qed.
+
+Definition hkinds (s : state) : list hkind := map fst (handlers s).
+Definition idkinds (s : state) : list idk := map fst (idhandlers s).
+
+Lemma h_has_In k s : h_has k s = true <-> In k (hkinds s).
+Proof.
+  unfold h_has, hkinds. rewrite existsb_exists. split.
+  - intros [x [Hx E]]. apply hkind_eqb_eq in E. subst. now apply in_map.
+  - intros H. apply in_map_iff in H. destruct H as [x [E Hx]]. exists x. split; [assumption|]. subst. apply hkind_eqb_refl.
+Qed.
+Lemma id_has_In k s : id_has k s = true <-> In k (idkinds s).
+Proof.
+  unfold id_has, idkinds. rewrite existsb_exists. split.
+  - intros [x [Hx E]]. apply idk_eqb_eq in E. subst. now apply in_map.
+  - intros H. apply in_map_iff in H. destruct H as [x [E Hx]]. exists x. split; [assumption|]. subst. now apply idk_eqb_eq.
+Qed.
+
+Lemma hkinds_h_add k s k' : In k' (hkinds (h_add k s)) <-> In k' (hkinds s) \/ k' = k.
+Proof.
+  unfold h_add. destruct (h_has k s) eqn:E.
+  - split; [auto|]. intros [H|H]; [assumption|]. subst. now apply h_has_In.
+  - unfold hkinds. sproj. rewrite map_app, in_app_iff. cbn. intuition.
+Qed.
+Lemma hkinds_h_del k s k' : In k' (hkinds (h_del k s)) <-> In k' (hkinds s) /\ k' <> k.
+Proof.
+  unfold h_del, hkinds. sproj. rewrite !in_map_iff. split.
+  - intros [x [E Hx]]. apply filter_In in Hx. destruct Hx as [Hx Hn]. subst. split; [exists x; auto|].
+    intros Q. rewrite Q, hkind_eqb_refl in Hn. discriminate.
+  - intros [[x [E Hx]] Hn]. exists x. split; [assumption|]. apply filter_In. split; [assumption|]. subst.
+    destruct (hkind_eqb k (fst x)) eqn:Q; [|reflexivity]. apply hkind_eqb_eq in Q. congruence.
+Qed.
+Lemma idkinds_id_add k s k' : In k' (idkinds (id_add k s)) <-> In k' (idkinds s) \/ k' = k.
+Proof.
+  unfold id_add. destruct (id_has k s) eqn:E.
+  - split; [auto|]. intros [H|H]; [assumption|]. subst. now apply id_has_In.
+  - unfold idkinds. sproj. rewrite map_app, in_app_iff. cbn. intuition.
+Qed.
+Lemma idkinds_id_del k s k' : In k' (idkinds (id_del k s)) -> In k' (idkinds s).
+Proof.
+  unfold id_del, idkinds. sproj. rewrite !in_map_iff. intros [x [E Hx]]. apply filter_In in Hx. exists x. tauto.
+Qed.
+
+(* the rest of the deep view is untouched by the handler-list functions *)
+Lemma h_add_deep k s : deep (h_add k s) =
+  mkDeep (hkinds (h_add k s)) (d_ids (deep s)) (d_oh (deep s)) (d_ps (deep s)) (d_secured (deep s)) (d_tlsp (deep s))
+         (d_tlsf (deep s)) (d_tlss (deep s)) (d_mand (deep s)) (d_dis (deep s)) (d_rp (deep s)).
+Proof. unfold h_add. destruct (h_has k s); reflexivity. Qed.
+Lemma h_del_deep k s : deep (h_del k s) =
+  mkDeep (hkinds (h_del k s)) (d_ids (deep s)) (d_oh (deep s)) (d_ps (deep s)) (d_secured (deep s)) (d_tlsp (deep s))
+         (d_tlsf (deep s)) (d_tlss (deep s)) (d_mand (deep s)) (d_dis (deep s)) (d_rp (deep s)).
+Proof. reflexivity. Qed.
+Lemma id_add_deep k s : deep (id_add k s) =
+  mkDeep (d_handlers (deep s)) (idkinds (id_add k s)) (d_oh (deep s)) (d_ps (deep s)) (d_secured (deep s)) (d_tlsp (deep s))
+         (d_tlsf (deep s)) (d_tlss (deep s)) (d_mand (deep s)) (d_dis (deep s)) (d_rp (deep s)).
+Proof. unfold id_add. destruct (id_has k s); reflexivity. Qed.
+Lemma id_del_deep k s : deep (id_del k s) =
+  mkDeep (d_handlers (deep s)) (idkinds (id_del k s)) (d_oh (deep s)) (d_ps (deep s)) (d_secured (deep s)) (d_tlsp (deep s))
+         (d_tlsf (deep s)) (d_tlss (deep s)) (d_mand (deep s)) (d_dis (deep s)) (d_rp (deep s)).
+Proof. reflexivity. Qed.
+Lemma prepare_reset_deep h s : deep (prepare_reset h s) =
+  mkDeep (d_handlers (deep s)) (d_ids (deep s)) h (d_ps (deep s)) (d_secured (deep s)) (d_tlsp (deep s))
+         (d_tlsf (deep s)) (d_tlss (deep s)) (d_mand (deep s)) (d_dis (deep s)) true.
+Proof. reflexivity. Qed.
+
+(* ------------------------------------------------------------------ specifications of the basic non-plumbing functions *)
+Lemma all_neutral_tls l : forallb neutral (l ++ [OSockClose]) = true <-> forallb neutral l = true.
+Proof. rewrite forallb_app. cbn. rewrite andb_true_r. tauto. Qed.
+
+Lemma conn_disconnect_idle s : st s = Disconnected -> conn_disconnect s = (s, []).
+Proof. intros H. unfold conn_disconnect. rewrite H. reflexivity. Qed.
+
+Lemma conn_disconnect_spec s : st s <> Disconnected -> sm_alloc s = true ->
+  exists s' l sb,
+    conn_disconnect s = (s', l ++ [ODisconnect (err s') (stream_error s')]) /\ forallb neutral l = true /\
+    core s' = mkCore Disconnected false (is_raw s) (sm_alloc s) (crashed s) (stream_error s)
+                     (g_attempt (gh s)) (g_connects (gh s)) (g_disconnects (gh s)) (g_rawc (gh s)) (g_serr (gh s)) sb /\
+    (sb = g_se_bad (gh s) \/ (is_raw s = false /\ se_eqb (stream_error s) (g_serr (gh s)) = false)) /\
+    deep s' = mkDeep (d_handlers (deep s)) (d_ids (deep s)) (d_oh (deep s)) (d_ps (deep s)) (d_secured (deep s)) false
+                     (d_tlsf (deep s)) (d_tlss (deep s)) (d_mand (deep s)) (d_dis (deep s)) (d_rp (deep s)).
+Proof.
+  intros Hst Ha.
+  set (s1 := set_neg_done false (set_st Disconnected s)).
+  set (s3 := reset_sm_for_reconnect (set_tls_present false s1)).
+  assert (C3 : core s3 = core (set_tls_present false s1)) by apply reset_sm_core.
+  assert (D3 : deep s3 = deep (set_tls_present false s1)) by apply reset_sm_deep.
+  assert (Hl : forallb neutral ((if tls_present s1 then [OTlsStop] else []) ++ [OSockClose]) = true)
+    by (destruct (tls_present s1); reflexivity).
+  assert (Hbody : conn_disconnect s =
+            ((if is_raw s3 || se_eqb (stream_error s3) (g_serr (gh s3)) then s3 else upg (set_g_se_bad true) s3),
+             (if tls_present s1 then [OTlsStop] else []) ++
+             [OSockClose; ODisconnect (err (if is_raw s3 || se_eqb (stream_error s3) (g_serr (gh s3)) then s3 else upg (set_g_se_bad true) s3))
+                                      (stream_error (if is_raw s3 || se_eqb (stream_error s3) (g_serr (gh s3)) then s3 else upg (set_g_se_bad true) s3))])).
+  { unfold conn_disconnect. rewrite Ha. destruct (st s); [congruence| |]; reflexivity. }
+  rewrite Hbody. clear Hbody.
+  pose proof (core_fields _ _ C3) as (_ & _ & F3 & _ & _ & F6 & _ & _ & _ & _ & F11 & _).
+  change (is_raw (set_tls_present false s1)) with (is_raw s) in F3.
+  change (stream_error (set_tls_present false s1)) with (stream_error s) in F6.
+  change (g_serr (gh (set_tls_present false s1))) with (g_serr (gh s)) in F11.
+  destruct (is_raw s3 || se_eqb (stream_error s3) (g_serr (gh s3))) eqn:Q.
+  - exists s3, ((if tls_present s1 then [OTlsStop] else []) ++ [OSockClose]), (g_se_bad (gh s)).
+    split; [rewrite <- app_assoc; reflexivity|]. split; [exact Hl|].
+    split; [rewrite C3; reflexivity|]. split; [left; reflexivity|]. rewrite D3; reflexivity.
+  - exists (upg (set_g_se_bad true) s3), ((if tls_present s1 then [OTlsStop] else []) ++ [OSockClose]), true.
+    split; [rewrite <- app_assoc; reflexivity|]. split; [exact Hl|].
+    split.
+    { change (core (upg (set_g_se_bad true) s3)) with
+        (mkCore (c_st (core s3)) (c_nd (core s3)) (c_raw (core s3)) (c_alloc (core s3)) (c_crashed (core s3)) (c_se (core s3))
+                (c_att (core s3)) (c_nc (core s3)) (c_ndisc (core s3)) (c_rawc (core s3)) (c_serr (core s3)) true).
+      rewrite C3. reflexivity. }
+    split.
+    { right. apply orb_false_iff in Q. destruct Q as [Q1 Q2]. rewrite F3 in Q1. rewrite F6, F11 in Q2. split; assumption. }
+    change (deep (upg (set_g_se_bad true) s3)) with (deep s3). rewrite D3. reflexivity.
+Qed.
+
+Lemma sns_spec s :
+  (is_raw s = false /\ neg_done s = true /\ stream_negotiation_success s = (s, [])) \/
+  ((is_raw s = true \/ neg_done s = false) /\
+   exists s', stream_negotiation_success s = (s', [OConnect]) /\
+     core s' = mkCore (st s) true (is_raw s) (sm_alloc s) (crashed s) (stream_error s)
+                      (g_attempt (gh s)) (g_connects (gh s)) (g_disconnects (gh s)) (g_rawc (gh s)) (g_serr (gh s)) (g_se_bad (gh s)) /\
+     deep s' = deep s).
+Proof.
+  unfold stream_negotiation_success. destruct (is_raw s) eqn:R; cbn [negb andb].
+  - right. split; [left; reflexivity|]. eexists. split; [reflexivity|].
+    destruct (connect_justified s); split; unfold core, deep, upg; sproj; rewrite ?R; reflexivity.
+  - destruct (neg_done s) eqn:N.
+    + left. auto.
+    + right. split; [right; reflexivity|]. eexists. split; [reflexivity|].
+      destruct (connect_justified s); split; unfold core, deep, upg; sproj; rewrite ?R; reflexivity.
+Qed.
+
+Lemma conn_tls_start_spec s :
+  let '(s', o, ok) := conn_tls_start s in
+  core s' = core s /\ forallb neutral o = true /\
+  ((ok = false /\ o = [] /\ deep s' = deep s) \/
+   (ok = true /\ d_dis (deep s) = false /\
+    deep s' = mkDeep (d_handlers (deep s)) (d_ids (deep s)) (d_oh (deep s)) (d_ps (deep s)) true true
+                     (d_tlsf (deep s)) (d_tlss (deep s)) (d_mand (deep s)) (d_dis (deep s)) (d_rp (deep s))) \/
+   (ok = false /\
+    deep s' = mkDeep (d_handlers (deep s)) (d_ids (deep s)) (d_oh (deep s)) (d_ps (deep s)) (d_secured (deep s)) false
+                     true (d_tlss (deep s)) (d_mand (deep s)) (d_dis (deep s)) (d_rp (deep s)))).
+Proof.
+  unfold conn_tls_start. destruct (f_tls_disabled s) eqn:Fd; [cbn; auto 6|].
+  destruct (negb (tlsnew_ok s)); [cbn; auto 6|].
+  destruct (match tls_verdicts s with b :: _ => b | [] => true end).
+  - split; [reflexivity|]. split; [reflexivity|]. right. left. split; [reflexivity|]. split; [exact Fd|reflexivity].
+  - split; [reflexivity|]. split; [reflexivity|]. right. right. split; reflexivity.
+Qed.
+
+(* ------------------------------------------------------------------ the remaining invariants *)
+Definition inN3 (k : hkind) : bool := match k with HUser | HError | HProceedTls => true | _ => false end.
+Definition inN4 (k : hkind) : bool := match k with HUser | HError | HProceedTls | HFeatures => true | _ => false end.
+Definition oh_pre (h : openh) : bool := match h with OpenAuth | OpenTls | OpenRaw | OpenStub => true | _ => false end.
+Definition oh_first (h : openh) : bool := match h with OpenAuth | OpenComponent => true | _ => false end.
+Definition is_sec (d : deep_t) : bool := d_secured d && negb (d_tlsf d) && d_tlsp d.
+Definition near4 (d : deep_t) : Prop := (forall k, In k (d_handlers d) -> inN4 k = true) /\ d_ids d = [] /\ oh_pre (d_oh d) = true.
+Definition near3 (d : deep_t) : Prop := (forall k, In k (d_handlers d) -> inN3 k = true) /\ d_ids d = [].
+Definition dead (p : pstate) : bool := match p with PClosed | PDead => true | _ => false end.
+
+Lemma is_secured_deep s : is_secured s = is_sec (deep s).
+Proof. reflexivity. Qed.
+Lemma se_eqb_refl x : se_eqb x x = true.
+Proof. destruct x as [[c t]|]; cbn; [|reflexivity]. rewrite Z.eqb_refl. destruct t; reflexivity. Qed.
+
+(* stream error: what the library stores is what the observer saw; [pend] is the <stream:error/> being
+   dispatched (already seen by the observer, not yet by _handle_error) *)
+Record SerrI (pend : option (Z * bool)) (c : core_t) (d : deep_t) : Prop := mkSerr {
+  S1 : c_sebad c = false;
+  S2 : c_st c <> Disconnected -> c_raw c = false ->
+       match pend with None => se_eqb (c_se c) (c_serr c) = true | Some x => c_serr c = Some x end;
+  S3 : c_st c <> Disconnected -> c_raw c = false ->
+       In HError (d_handlers d) \/ (oh_first (d_oh d) = true /\ (d_rp d = true \/ d_ps d = PDepth0))
+}.
+
+(* the negotiation phase: under mandatory TLS nothing beyond the pre-authentication handlers exists
+   while the stream is not secured *)
+Record DeepI (c : core_t) (d : deep_t) : Prop := mkDeepI {
+  Df : d_dis d = true -> d_mand d = false;
+  Dts : d_tlss d = false;
+  DP : c_st c <> Disconnected -> In HProceedTls (d_handlers d) -> d_secured d = false;
+  DM : c_st c <> Disconnected -> d_mand d = true -> is_sec d = false -> near4 d;
+  DH0 : c_st c = Connecting -> ~ In HProceedTls (d_handlers d)
+}.
+
+(* where in a step we are: between steps; inside xmpp_run_once after the parser reset; while handlers of
+   one element run; between the items of a chunk *)
+Inductive mode : Type := MTop | MRun | MChunk | MFeed.
+Definition RunI (c : core_t) (d : deep_t) : Prop :=
+  c_st c <> Connecting /\ c_alloc c = true /\
+  (c_st c <> Disconnected -> c_raw c = false -> In HError (d_handlers d) \/ (oh_first (d_oh d) = true /\ d_ps d = PDepth0)).
+Definition ModeI (m : mode) (c : core_t) (d : deep_t) : Prop :=
+  match m with
+  | MTop => True
+  | MRun => RunI c d
+  | MChunk => RunI c d /\ (c_st c <> Disconnected -> c_raw c = false -> In HError (d_handlers d)) /\
+              (c_st c = Disconnected -> near3 d)
+  | MFeed => RunI c d /\ (c_st c = Disconnected -> d_ps d <> PDepth0 /\ (dead (d_ps d) = true \/ near3 d))
+  end.
+
+Record InvV (m : mode) (pend : option (Z * bool)) (c : core_t) (d : deep_t) (acc : emit) : Prop := mkInvV {
+  IL : LifeI c acc; IS : SerrI pend c d; ID : DeepI c d; IM : ModeI m c d
+}.
+Definition Inv (m : mode) (pend : option (Z * bool)) (s : state) (acc : emit) : Prop := InvV m pend (core s) (deep s) acc.
+
+Lemma Inv_frame m p s s' acc : core s' = core s -> deep s' = deep s -> Inv m p s acc -> Inv m p s' acc.
+Proof. unfold Inv. intros -> ->. exact (fun x => x). Qed.
+
+Lemma InvV_neutral m p c d acc l : forallb neutral l = true -> InvV m p c d acc -> InvV m p c d (acc ++ l).
+Proof. intros Hn [A B C D]. constructor; try assumption. now apply LifeI_neutral. Qed.
+
+Lemma ModeI_run m c d : m <> MTop -> ModeI m c d -> RunI c d.
+Proof. destruct m; cbn; intros H M; try tauto; apply M. Qed.
+
+(* what allows registering a post-authentication handler *)
+Definition Arm (m : mode) (c : core_t) (d : deep_t) : Prop :=
+  (m = MChunk -> c_st c <> Disconnected) /\ (c_st c <> Disconnected -> d_mand d = true -> is_sec d = true).
+
+(* ------------------------------------------------------------------ transitions of the invariant: handler lists *)
+Ltac deep_simpl := cbn [d_handlers d_ids d_oh d_ps d_secured d_tlsp d_tlsf d_tlss d_mand d_dis d_rp] in *.
+
+Lemma InvV_handlers_add m p c d acc k l' :
+  (forall k', In k' l' <-> In k' (d_handlers d) \/ k' = k) ->
+  (k = HProceedTls -> c_st c <> Connecting /\ (c_st c <> Disconnected -> d_secured d = false)) ->
+  (inN4 k = false -> c_st c <> Disconnected -> d_mand d = true -> is_sec d = true) ->
+  (m = MChunk \/ m = MFeed -> inN3 k = false -> c_st c <> Disconnected) ->
+  InvV m p c d acc ->
+  InvV m p c (mkDeep l' (d_ids d) (d_oh d) (d_ps d) (d_secured d) (d_tlsp d) (d_tlsf d) (d_tlss d) (d_mand d) (d_dis d) (d_rp d)) acc.
+Proof.
+  intros Hl C1 C2 C3 [HL [s1 s2 s3] [df dts dp dm dh0] HM].
+  assert (Hsub : forall k', In k' (d_handlers d) -> In k' l') by (intros k' H; apply Hl; auto).
+  constructor; [assumption | constructor | constructor | ]; unfold is_sec, near4, near3 in *; deep_simpl; try assumption.
+  - intros A B. destruct (s3 A B) as [H|H]; [left; auto|right; exact H].
+  - intros A B. apply Hl in B. destruct B as [B|B]; [auto|]. symmetry in B. apply C1; auto.
+  - intros A B C. destruct (dm A B C) as (N1 & N2 & N3). split; [|split; assumption].
+    intros k' Hk. apply Hl in Hk. destruct Hk as [Hk| ->]; [auto|].
+    destruct (inN4 k) eqn:E; [reflexivity|]. specialize (C2 eq_refl A B). unfold is_sec in C2. congruence.
+  - intros A B. apply Hl in B. destruct B as [B|B]; [exact (dh0 A B)|]. symmetry in B. destruct (C1 B) as [C _]. exact (C A).
+  - assert (HR : RunI c d -> RunI c (mkDeep l' (d_ids d) (d_oh d) (d_ps d) (d_secured d) (d_tlsp d) (d_tlsf d) (d_tlss d) (d_mand d) (d_dis d) (d_rp d))).
+    { unfold RunI; deep_simpl. intros (R1 & R2 & R3). split; [assumption|]. split; [assumption|].
+      intros A B. destruct (R3 A B) as [H|H]; [left; auto|right; exact H]. }
+    assert (HN : near3 d -> (inN3 k = false -> c_st c <> Disconnected) -> c_st c = Disconnected ->
+                 near3 (mkDeep l' (d_ids d) (d_oh d) (d_ps d) (d_secured d) (d_tlsp d) (d_tlsf d) (d_tlss d) (d_mand d) (d_dis d) (d_rp d))).
+    { unfold near3; deep_simpl. intros [N1 N2] Q E. split; [|assumption]. intros k' Hk. apply Hl in Hk. destruct Hk as [Hk| ->]; [auto|].
+      destruct (inN3 k) eqn:E3; [reflexivity|]. exfalso. exact (Q eq_refl E). }
+    destruct m; cbn [ModeI] in *; deep_simpl.
+    + exact I.
+    + auto.
+    + destruct HM as (M1 & M2 & M3). split; [auto|]. split; [intros A B; auto|]. intros E. apply HN; auto.
+    + destruct HM as (M1 & M2). split; [auto|]. intros E. destruct (M2 E) as [P1 [P2|P2]]; (split; [exact P1|]); [left; exact P2 | right; apply HN; auto].
+Qed.
+
+Lemma InvV_handlers_sub m p c d acc l' :
+  (forall k', In k' l' -> In k' (d_handlers d)) ->
+  (In HError (d_handlers d) -> In HError l') ->
+  InvV m p c d acc ->
+  InvV m p c (mkDeep l' (d_ids d) (d_oh d) (d_ps d) (d_secured d) (d_tlsp d) (d_tlsf d) (d_tlss d) (d_mand d) (d_dis d) (d_rp d)) acc.
+Proof.
+  intros Hsub He [HL [s1 s2 s3] [df dts dp dm dh0] HM].
+  constructor; [assumption | constructor | constructor | ]; unfold is_sec, near4, near3 in *; deep_simpl; try assumption.
+  - intros A B. destruct (s3 A B) as [H|H]; [left; auto|right; exact H].
+  - intros A B. auto.
+  - intros A B C. destruct (dm A B C) as (N1 & N2 & N3). split; [|split; assumption]. auto.
+  - intros A B. exact (dh0 A (Hsub _ B)).
+  - assert (HR : RunI c d -> RunI c (mkDeep l' (d_ids d) (d_oh d) (d_ps d) (d_secured d) (d_tlsp d) (d_tlsf d) (d_tlss d) (d_mand d) (d_dis d) (d_rp d))).
+    { unfold RunI; deep_simpl. intros (R1 & R2 & R3). split; [assumption|]. split; [assumption|].
+      intros A B. destruct (R3 A B) as [H|H]; [left; auto|right; exact H]. }
+    assert (HN : near3 d -> near3 (mkDeep l' (d_ids d) (d_oh d) (d_ps d) (d_secured d) (d_tlsp d) (d_tlsf d) (d_tlss d) (d_mand d) (d_dis d) (d_rp d))).
+    { unfold near3; deep_simpl. intros [N1 N2]. split; [|assumption]. auto. }
+    destruct m; cbn [ModeI] in *; deep_simpl.
+    + exact I.
+    + auto.
+    + destruct HM as (M1 & M2 & M3). split; [auto|]. split; [intros A B; auto|]. auto.
+    + destruct HM as (M1 & M2). split; [auto|]. intros E. destruct (M2 E) as [P1 [P2|P2]]; (split; [exact P1|]); [left; exact P2 | right; apply HN; auto].
+Qed.
+
+Lemma InvV_ids m p c d acc i' :
+  (i' <> [] -> c_st c <> Disconnected -> d_mand d = true -> is_sec d = true) ->
+  (m = MChunk \/ m = MFeed -> i' <> [] -> c_st c <> Disconnected) ->
+  InvV m p c d acc ->
+  InvV m p c (mkDeep (d_handlers d) i' (d_oh d) (d_ps d) (d_secured d) (d_tlsp d) (d_tlsf d) (d_tlss d) (d_mand d) (d_dis d) (d_rp d)) acc.
+Proof.
+  intros C2 C3 [HL [s1 s2 s3] [df dts dp dm dh0] HM].
+  assert (Hnil : forall (P : Prop), (i' <> [] -> P) -> (i' = [] \/ P)).
+  { intros P H. destruct i'; [left; reflexivity|right; apply H; discriminate]. }
+  constructor; [assumption | constructor | constructor | ]; unfold is_sec, near4, near3 in *; deep_simpl; try assumption.
+  - intros A B C. destruct (dm A B C) as (N1 & N2 & N3). split; [assumption|]. split; [|assumption].
+    destruct i'; [reflexivity|]. assert (Q : i :: i' <> []) by discriminate. specialize (C2 Q A B). unfold is_sec in C2. congruence.
+  - assert (HN : near3 d -> c_st c = Disconnected -> (i' <> [] -> c_st c <> Disconnected) ->
+                 near3 (mkDeep (d_handlers d) i' (d_oh d) (d_ps d) (d_secured d) (d_tlsp d) (d_tlsf d) (d_tlss d) (d_mand d) (d_dis d) (d_rp d))).
+    { unfold near3; deep_simpl. intros [N1 N2] E Q. split; [assumption|]. destruct i'; [reflexivity|]. exfalso. apply Q; [discriminate|exact E]. }
+    destruct m; cbn [ModeI] in *; deep_simpl.
+    + exact I.
+    + exact HM.
+    + destruct HM as (M1 & M2 & M3). split; [auto|]. split; [auto|]. intros E. apply HN; auto.
+    + destruct HM as (M1 & M2). split; [auto|]. intros E. destruct (M2 E) as [P1 [P2|P2]]; (split; [exact P1|]); [left; exact P2 | right; apply HN; auto].
+Qed.
+
+Lemma InvV_open m p c d acc h :
+  (c_st c <> Disconnected -> c_raw c = false -> In HError (d_handlers d)) ->
+  (oh_pre h = false -> c_st c <> Disconnected -> d_mand d = true -> is_sec d = true) ->
+  InvV m p c d acc ->
+  InvV m p c (mkDeep (d_handlers d) (d_ids d) h (d_ps d) (d_secured d) (d_tlsp d) (d_tlsf d) (d_tlss d) (d_mand d) (d_dis d) true) acc.
+Proof.
+  intros He C2 [HL [s1 s2 s3] [df dts dp dm dh0] HM].
+  constructor; [assumption | constructor | constructor | ]; unfold is_sec, near4, near3 in *; deep_simpl; try assumption.
+  - intros A B. left. auto.
+  - intros A B C. destruct (dm A B C) as (N1 & N2 & N3). split; [assumption|]. split; [assumption|].
+    destruct (oh_pre h) eqn:E; [reflexivity|]. specialize (C2 eq_refl A B). unfold is_sec in C2. congruence.
+  - assert (HR : RunI c d -> RunI c (mkDeep (d_handlers d) (d_ids d) h (d_ps d) (d_secured d) (d_tlsp d) (d_tlsf d) (d_tlss d) (d_mand d) (d_dis d) true)).
+    { unfold RunI; deep_simpl. intros (R1 & R2 & R3). split; [assumption|]. split; [assumption|]. intros A B. left. auto. }
+    destruct m; cbn [ModeI] in *; deep_simpl.
+    + exact I.
+    + auto.
+    + destruct HM as (M1 & M2 & M3). split; [auto|]. split; [auto|]. exact M3.
+    + destruct HM as (M1 & M2). split; [auto|]. exact M2.
+Qed.
+
+(* ------------------------------------------------------------------ transitions of the invariant: core changes *)
+Lemma InvV_core_change m p c c' d acc acc' :
+  c_st c' = c_st c -> c_raw c' = c_raw c -> c_alloc c' = c_alloc c -> c_se c' = c_se c ->
+  c_serr c' = c_serr c -> c_sebad c' = c_sebad c ->
+  LifeI c' acc' -> InvV m p c d acc -> InvV m p c' d acc'.
+Proof.
+  intros E1 E2 E3 E4 E5 E6 HL' [HL [s1 s2 s3] [df dts dp dm dh0] HM].
+  constructor; [assumption | constructor | constructor | ]; rewrite ?E1, ?E2, ?E3, ?E4, ?E5, ?E6; try assumption.
+  destruct m; cbn [ModeI] in *; unfold RunI in *; rewrite ?E1, ?E2, ?E3; assumption.
+Qed.
+
+(* stream_negotiation_success *)
+Lemma sns_inv m p s acc : m <> MTop -> st s <> Disconnected -> Inv m p s acc ->
+  Inv m p (fst (stream_negotiation_success s)) (acc ++ snd (stream_negotiation_success s)).
+Proof.
+  intros Hm Hst H. destruct (sns_spec s) as [(R & N & E)|(Hr & s' & E & C & D)]; rewrite E; cbn [fst snd].
+  - rewrite app_nil_r. exact H.
+  - unfold Inv in *. rewrite C, D.
+    assert (Hc : st s = Connected).
+    { destruct H as [_ _ _ HM]. apply (ModeI_run _ _ _ Hm) in HM. destruct HM as (R1 & _). cbn in R1. destruct (st s); congruence. }
+    eapply InvV_core_change; [..|exact H]; try reflexivity.
+    apply (LifeI_connect (core s) acc Hc Hr). apply H.
+Qed.
+Lemma sns_core_st s : st (fst (stream_negotiation_success s)) = st s /\ deep (fst (stream_negotiation_success s)) = deep s.
+Proof.
+  destruct (sns_spec s) as [(R & N & E)|(Hr & s' & E & C & D)]; rewrite E; cbn [fst]; [auto|].
+  split; [|assumption]. change (c_st (core s') = st s). rewrite C. reflexivity.
+Qed.
+
+(* conn_disconnect from a live state *)
+Lemma InvV_disconnect m p c d acc l e se sb d' :
+  (m = MTop \/ m = MRun) -> c_st c <> Disconnected ->
+  forallb neutral l = true -> LifeI c acc -> c_sebad c = false ->
+  (sb = c_sebad c \/ (c_raw c = false /\ se_eqb (c_se c) (c_serr c) = false)) ->
+  (c_raw c = false -> se_eqb (c_se c) (c_serr c) = true) ->
+  d_dis d' = d_dis d -> d_mand d' = d_mand d -> d_tlss d' = d_tlss d ->
+  (d_dis d = true -> d_mand d = false) -> d_tlss d = false ->
+  InvV m p (mkCore Disconnected false (c_raw c) (c_alloc c) (c_crashed c) (c_se c) (c_att c) (c_nc c) (c_ndisc c) (c_rawc c) (c_serr c) sb)
+       d' (acc ++ l ++ [ODisconnect e se]).
+Proof.
+  intros Hm Hst Hn HL S1 Hsb S2 E1 E2 E3 Df Dts.
+  assert (Hal : c_alloc c = true) by (apply HL; assumption).
+  constructor.
+  - now apply LifeI_disconnect.
+  - constructor; core_simpl; try (intros A; exfalso; apply A; reflexivity).
+    destruct Hsb as [->|[R Q]]; [assumption|]. rewrite (S2 R) in Q. discriminate.
+  - constructor; core_simpl; rewrite ?E1, ?E2, ?E3; try assumption; try (intros A; exfalso; apply A; reflexivity). intros A; discriminate.
+  - destruct Hm as [-> | ->]; cbn [ModeI]; [exact I|]. unfold RunI; core_simpl. split; [discriminate|]. split; [assumption|].
+    intros A; exfalso; apply A; reflexivity.
+Qed.
+
+Lemma conn_disconnect_inv m s acc : (m = MTop \/ m = MRun) -> Inv m None s acc ->
+  Inv m None (fst (conn_disconnect s)) (acc ++ snd (conn_disconnect s)).
+Proof.
+  intros Hm H. destruct (st s) eqn:E.
+  - rewrite conn_disconnect_idle by assumption. cbn [fst snd]. rewrite app_nil_r. exact H.
+  - assert (Hst : st s <> Disconnected) by congruence.
+    assert (Ha : sm_alloc s = true) by (apply H; exact Hst).
+    destruct (conn_disconnect_spec s Hst Ha) as (s' & l & sb & E1 & Hn & C & Hsb & D). rewrite E1. cbn [fst snd].
+    unfold Inv. rewrite C, D.
+    destruct H as [HL [s1 s2 s3] [df dts dp dm dh0] HM].
+    apply (InvV_disconnect m None (core s) (deep s)); try assumption; try reflexivity. intros R. apply (s2 Hst R).
+  - assert (Hst : st s <> Disconnected) by congruence.
+    assert (Ha : sm_alloc s = true) by (apply H; exact Hst).
+    destruct (conn_disconnect_spec s Hst Ha) as (s' & l & sb & E1 & Hn & C & Hsb & D). rewrite E1. cbn [fst snd].
+    unfold Inv. rewrite C, D.
+    destruct H as [HL [s1 s2 s3] [df dts dp dm dh0] HM].
+    apply (InvV_disconnect m None (core s) (deep s)); try assumption; try reflexivity. intros R. apply (s2 Hst R).
+Qed.
+Lemma conn_disconnect_frame s :
+  d_handlers (deep (fst (conn_disconnect s))) = d_handlers (deep s) /\ d_ids (deep (fst (conn_disconnect s))) = d_ids (deep s) /\
+  d_oh (deep (fst (conn_disconnect s))) = d_oh (deep s) /\ d_ps (deep (fst (conn_disconnect s))) = d_ps (deep s) /\
+  (st s <> Disconnected -> sm_alloc s = true -> st (fst (conn_disconnect s)) = Disconnected).
+Proof.
+  destruct (st s) eqn:E.
+  - rewrite conn_disconnect_idle by assumption. cbn [fst]. repeat split; try reflexivity. congruence.
+  - destruct (sm_alloc s) eqn:A.
+    + assert (Hst : st s <> Disconnected) by congruence.
+      destruct (conn_disconnect_spec s Hst A) as (s' & l & sb & E1 & Hn & C & Hsb & D). rewrite E1. cbn [fst]. rewrite D.
+      repeat split; try reflexivity. intros _ _. change (c_st (core s') = Disconnected). rewrite C. reflexivity.
+    + unfold conn_disconnect. rewrite E, A. cbn. repeat split; try reflexivity. discriminate.
+  - destruct (sm_alloc s) eqn:A.
+    + assert (Hst : st s <> Disconnected) by congruence.
+      destruct (conn_disconnect_spec s Hst A) as (s' & l & sb & E1 & Hn & C & Hsb & D). rewrite E1. cbn [fst]. rewrite D.
+      repeat split; try reflexivity. intros _ _. change (c_st (core s') = Disconnected). rewrite C. reflexivity.
+    + unfold conn_disconnect. rewrite E, A. cbn. repeat split; try reflexivity. discriminate.
+Qed.
+
+(* ------------------------------------------------------------------ state-level wrappers for the handler lists *)
+Definition ArmS (m : mode) (s : state) : Prop :=
+  (m = MChunk \/ m = MFeed -> st s <> Disconnected) /\
+  (st s <> Disconnected -> f_tls_mandatory s = true -> is_secured s = true).
+
+Lemma Inv_h_add m p k s acc :
+  (k = HProceedTls -> st s <> Connecting /\ (st s <> Disconnected -> secured s = false)) ->
+  (inN4 k = false -> st s <> Disconnected -> f_tls_mandatory s = true -> is_secured s = true) ->
+  (m = MChunk \/ m = MFeed -> inN3 k = false -> st s <> Disconnected) ->
+  Inv m p s acc -> Inv m p (h_add k s) acc.
+Proof.
+  intros C1 C2 C3 H. unfold Inv. rewrite h_add_core, h_add_deep.
+  apply (InvV_handlers_add m p (core s) (deep s) acc k); try assumption. intros k'. apply hkinds_h_add.
+Qed.
+Lemma Inv_h_add_arm m p k s acc : ArmS m s -> k <> HProceedTls -> Inv m p s acc -> Inv m p (h_add k s) acc.
+Proof. intros [A1 A2] Hk. apply Inv_h_add; [congruence | intros _; exact A2 | intros Q _; exact (A1 Q)]. Qed.
+Lemma Inv_h_del m p k s acc : k <> HError -> Inv m p s acc -> Inv m p (h_del k s) acc.
+Proof.
+  intros Hk H. unfold Inv. rewrite h_del_core, h_del_deep.
+  apply (InvV_handlers_sub m p (core s) (deep s) acc); try assumption.
+  - intros k' Q. apply hkinds_h_del in Q. apply Q.
+  - intros Q. apply hkinds_h_del. split; [exact Q|congruence].
+Qed.
+Lemma Inv_id_add m p k s acc : ArmS m s -> Inv m p s acc -> Inv m p (id_add k s) acc.
+Proof.
+  intros [A1 A2] H. unfold Inv. rewrite id_add_core, id_add_deep.
+  apply (InvV_ids m p (core s) (deep s) acc); try assumption; intros; auto.
+Qed.
+Lemma InvV_ids_sub m p c d acc i' :
+  (d_ids d = [] -> i' = []) -> InvV m p c d acc ->
+  InvV m p c (mkDeep (d_handlers d) i' (d_oh d) (d_ps d) (d_secured d) (d_tlsp d) (d_tlsf d) (d_tlss d) (d_mand d) (d_dis d) (d_rp d)) acc.
+Proof.
+  intros Hi [HL [s1 s2 s3] [df dts dp dm dh0] HM].
+  constructor; [assumption | constructor | constructor | ]; unfold is_sec, near4, near3 in *; deep_simpl; try assumption.
+  - intros A B C. destruct (dm A B C) as (N1 & N2 & N3). auto.
+  - destruct m; cbn [ModeI] in *; unfold near3 in *; deep_simpl.
+    + exact I.
+    + exact HM.
+    + destruct HM as (M1 & M2 & M3). split; [auto|]. split; [auto|]. intros E. destruct (M3 E). auto.
+    + destruct HM as (M1 & M2). split; [auto|]. intros E. destruct (M2 E) as [P1 [P2|[P2 P3]]]; (split; [exact P1|]); [left; exact P2 | right; auto].
+Qed.
+Lemma Inv_id_del m p k s acc : Inv m p s acc -> Inv m p (id_del k s) acc.
+Proof.
+  intros H. unfold Inv. rewrite id_del_core, id_del_deep.
+  apply (InvV_ids_sub m p (core s) (deep s) acc); [|exact H].
+  cbn [deep d_ids]. intros E. destruct (idkinds (id_del k s)) as [|x r] eqn:F; [reflexivity|].
+  assert (I : In x (idkinds s)) by (apply (idkinds_id_del k); rewrite F; left; reflexivity).
+  unfold idkinds in I. rewrite E in I. destruct I.
+Qed.
+Lemma Inv_prepare_reset m p h s acc :
+  (st s <> Disconnected -> is_raw s = false -> In HError (hkinds s)) ->
+  (oh_pre h = false -> st s <> Disconnected -> f_tls_mandatory s = true -> is_secured s = true) ->
+  Inv m p s acc -> Inv m p (prepare_reset h s) acc.
+Proof.
+  intros H1 H2 H. unfold Inv. rewrite prepare_reset_core, prepare_reset_deep.
+  apply (InvV_open m p (core s) (deep s) acc); assumption.
+Qed.
